@@ -238,9 +238,11 @@ def judge(res, W, run, sc, Ssim, tag, failure, second=False, dispatcher=None):
     return True
 
 
-def run_scenario(res, W, sc, strategy, tag, with_second=True, dispatcher_kind=None, line_points=False, closer_at=None, arm_at="on_open"):
+def run_scenario(res, W, sc, strategy, tag, with_second=True, dispatcher_kind=None, line_points=False, closer_at=None, arm_at="on_open", trace_points=False):
     """One execution: first run, then (optionally) a second run on the same object."""
     Ssim = sched.Sched(strategy=strategy, horizon=HORIZON, watchdog=60)
+    if trace_points:
+        Ssim.trace_points = []
     out = {}
 
     def scen():
@@ -378,6 +380,7 @@ def run(res, tier, seed, shard, nshards):
     for sc in sweep_scs:
         jobs.append(("random2", sc, 0))
         jobs.append(("sweep2", sc, 0))
+        jobs.append(("sweep2-hot", sc, 0))
     # simulator fidelity: timing-free scenarios replayed on real loopback TCP with real threads
     from .. import fidelity
     byname = {sc["name"]: sc for sc in SC}
@@ -409,6 +412,25 @@ def run(res, tier, seed, shard, nshards):
                 st = sched.Preemptions(rr.sample(pts, 2 if i % 3 else 3))
                 run_scenario(res, W, sc, st, f"preempt2#{i}", with_second=False, line_points=True, closer_at=1.0)
                 res.count("sweep2_runs")
+        elif kind == "sweep2-hot":
+            # every pair (a point of the closing thread, a point of the loop thread inside the functions that end the run / release the
+            # socket): the closer is held back at the first, the loop is interrupted at the second
+            r0, S0 = run_scenario(res, W, sc, sched.NonPreemptive(), "baseline", with_second=False, line_points=True, closer_at=1.0, trace_points=True)
+            cnt = {}
+            closer_pts, hot = [], []
+            for (aname, pkind, desc) in S0.trace_points or []:
+                cnt[aname] = cnt.get(aname, 0) + 1
+                if aname == "closer":
+                    closer_pts.append(cnt[aname])
+                elif aname == "main" and isinstance(desc, tuple) and len(desc) == 3 and desc[1] in ("teardown", "shutdown", "_get_close_args", "close", "read"):
+                    hot.append(cnt[aname])
+            pairs = [(kc, km) for kc in closer_pts for km in hot]
+            if quick and len(pairs) > 700:
+                pairs = pairs[:: max(1, len(pairs) // 700)]
+            for (kc, km) in pairs:
+                st = sched.Preemptions([("closer", kc), ("main", km)])
+                run_scenario(res, W, sc, st, f"hold-closer@{kc}+preempt-loop@{km}", with_second=False, line_points=True, closer_at=1.0)
+                res.count("sweep2_hot_runs")
         elif kind == "fidelity":
             ok, detail = fidelity.compare(W, sc)
             if ok is True:
@@ -421,7 +443,8 @@ def run(res, tier, seed, shard, nshards):
                 res.inconc(f"simulator fidelity: scenario {sc['name']}: {detail[:400]}")
         elif kind in ("sweep", "sweep-start"):
             arm_at = "start" if kind == "sweep-start" else "on_open"
-            r0, S0 = run_scenario(res, W, sc, sched.NonPreemptive(), "baseline", with_second=False, line_points=True, closer_at=1.0 if arm_at == "on_open" else 0.0, arm_at=arm_at)
+            r0, S0 = run_scenario(res, W, sc, sched.NonPreemptive(), "baseline", with_second=False, line_points=True, closer_at=1.0 if arm_at == "on_open" else 0.0, arm_at=arm_at,
+                                  trace_points=True)
             npts = S0.actors[0].points
             res.notes[f"sweep_points:{sc['name']}:{arm_at}"] = npts
             parts = 4 if kind == "sweep" else 2
@@ -429,6 +452,17 @@ def run(res, tier, seed, shard, nshards):
             if quick and len(ks) > 250 // parts:
                 step = max(1, len(ks) * parts // 250)
                 ks = ks[::step]
+                # the sampled sweep always includes every point of the loop thread inside the functions that end a run or release
+                # the socket (where a concurrent close() hurts most)
+                hot, k = [], 0
+                for (aname, pkind, desc) in S0.trace_points or []:
+                    if aname != "main":
+                        continue
+                    k += 1
+                    if isinstance(desc, tuple) and len(desc) == 3 and desc[1] in ("teardown", "shutdown", "_get_close_args", "handleDisconnect", "close", "_stop_ping_thread"):
+                        hot.append(k)
+                ks = sorted(set(ks) | {k_ for k_ in hot if k_ % parts == arg})
+                res.count("sweep_hot_points", len([k_ for k_ in hot if k_ % parts == arg]))
             for k in ks:
                 st = sched.OnePreemption("main", k, to="closer")
                 run_scenario(res, W, sc, st, f"preempt@{k}", with_second=(k % 10 == 0), line_points=True, closer_at=1.0 if arm_at == "on_open" else 0.0, arm_at=arm_at)
